@@ -1,0 +1,91 @@
+//go:build verif
+
+/*
+ Licensed to the Apache Software Foundation (ASF) under one
+ or more contributor license agreements.  See the NOTICE file
+ distributed with this work for additional information
+ regarding copyright ownership.  The ASF licenses this file
+ to you under the Apache License, Version 2.0 (the
+ "License"); you may not use this file except in compliance
+ with the License.  You may obtain a copy of the License at
+
+     http://www.apache.org/licenses/LICENSE-2.0
+
+ Unless required by applicable law or agreed to in writing, software
+ distributed under the License is distributed on an "AS IS" BASIS,
+ WITHOUT WARRANTIES OR CONDITIONS OF ANY KIND, either express or implied.
+ See the License for the specific language governing permissions and
+ limitations under the License.
+*/
+
+package scheduler
+
+import (
+	"github.com/apache/yunikorn-core/pkg/handler"
+	"github.com/apache/yunikorn-core/pkg/rmproxy/rmevent"
+	"github.com/apache/yunikorn-core/pkg/scheduler/objects"
+	"github.com/apache/yunikorn-scheduler-interface/lib/go/si"
+)
+
+// Export shims for the model-based verification harness (build tag verif). No behaviour of their own:
+// each one forwards to the unexported entry point a synchronous, single goroutine driver needs.
+
+func (cc *ClusterContext) VerifSetEventHandler(h handler.EventHandler) {
+	cc.setEventHandler(h)
+}
+
+func (cc *ClusterContext) VerifProcessNodes(request *si.NodeRequest) {
+	cc.processNodes(request)
+}
+
+func (cc *ClusterContext) VerifUpdateApplications(request *si.ApplicationRequest) {
+	cc.handleRMUpdateApplicationEvent(&rmevent.RMUpdateApplicationEvent{Request: request})
+}
+
+func (cc *ClusterContext) VerifUpdateAllocations(request *si.AllocationRequest) {
+	cc.handleRMUpdateAllocationEvent(&rmevent.RMUpdateAllocationEvent{Request: request})
+}
+
+func (cc *ClusterContext) VerifSchedule() bool {
+	return cc.schedule()
+}
+
+// VerifQuotaPreemption is the body of Scheduler.triggerQuotaPreemption for a context that has no Scheduler.
+func (cc *ClusterContext) VerifQuotaPreemption() {
+	for _, psc := range cc.GetPartitionMapClone() {
+		if psc.IsQuotaPreemptionEnabled() {
+			psc.root.TryQuotaPreemption()
+		}
+	}
+}
+
+// VerifStopCleaners stops the background queue and application cleaners without removing the partitions.
+func (cc *ClusterContext) VerifStopCleaners() {
+	for _, psc := range cc.GetPartitionMapClone() {
+		close(psc.partitionManager.stopCleanExpiredApps)
+		close(psc.partitionManager.stopCleanRoot)
+	}
+}
+
+// VerifCleanQueues runs one pass of the queue cleaner.
+func (cc *ClusterContext) VerifCleanQueues() {
+	for _, psc := range cc.GetPartitionMapClone() {
+		psc.partitionManager.cleanQueues(psc.root)
+	}
+}
+
+func (pc *PartitionContext) VerifReservationCount() int {
+	return pc.getReservationCount()
+}
+
+func (pc *PartitionContext) VerifPlaceholderCount() int {
+	return pc.getPhAllocationCount()
+}
+
+func (pc *PartitionContext) VerifMoveTerminatedApp(appID string) {
+	pc.moveTerminatedApp(appID)
+}
+
+func (pc *PartitionContext) VerifRoot() *objects.Queue {
+	return pc.root
+}
